@@ -5,18 +5,23 @@
 package c07
 
 import (
+	"bytes"
 	"fmt"
 	"net"
 	"net/netip"
+	"os"
 	"sort"
 	"strconv"
 	"strings"
+	"time"
 
 	"github.com/irai/packet"
 	arp "github.com/irai/packet/handlers/arp_spoofer"
 	dhcp "github.com/irai/packet/handlers/dhcp4_spoofer"
 	dns "github.com/irai/packet/handlers/dns_naming"
 	"golang.org/x/net/dns/dnsmessage"
+	icmp "github.com/irai/packet/handlers/icmp_spoofer"
+	"verif/harness/c10"
 	"verif/harness/core"
 	"verif/harness/sess"
 )
@@ -530,4 +535,72 @@ func Gen(c *core.Ctx) {
 	}
 }
 
-var Runner = core.Runner{Gen: Gen, Eval: Eval}
+// genHistory drives a packet history through Session.Parse, the ARP / ICMPv6 / DHCPv4 handlers, purge probes
+// and a hunt start/stop, and submits every frame the library wrote to the reference decoder.
+func genHistory(c *core.Ctx, seed int64, n int) {
+	s, conn := sess.New(nil)
+	ah, _ := arp.New(s)
+	h6, _ := icmp.New6(s)
+	lease := fmt.Sprintf("%s/build/c07-lease-%d.yml", os.Getenv("VERIF_DIR"), os.Getpid())
+	defer os.Remove(lease)
+	dhcpd, err := dhcp.Config{Mode: dhcp.ModePrimaryServer, NetfilterIP: netip.MustParsePrefix("192.168.0.129/25"), DNSServer: netip.MustParseAddr("8.8.8.8"), LeaseFilename: lease}.New(s)
+	if err != nil {
+		return
+	}
+	total := 0
+	flush := func(what string) {
+		for _, f := range conn.Take() {
+			total++
+			c.Add(core.FrameCase(what, sess.HostMAC, f))
+		}
+	}
+	for k, pkt := range c10.History(seed, n) {
+		buf := append([]byte{}, pkt...)
+		core.Safely(func() string {
+			frame, err := s.Parse(buf)
+			if err != nil {
+				return ""
+			}
+			switch frame.PayloadID {
+			case packet.PayloadARP:
+				ah.ProcessPacket(frame)
+			case packet.PayloadICMP6:
+				h6.ProcessPacket(frame)
+			case packet.PayloadDHCP4:
+				dhcpd.ProcessPacket(frame)
+			}
+			s.Notify(frame)
+			return ""
+		})
+		flush("frame emitted while processing a received packet")
+		if k%40 == 17 { // probes of silent hosts: ARP who-is, NS, echo6
+			s.VerifPurge(time.Now().Add(3 * time.Minute))
+			time.Sleep(20 * time.Millisecond)
+			flush("purge probe")
+		}
+		if k%50 == 23 {
+			for _, h := range s.GetHosts() {
+				if h.Addr.IP.Is4() && !bytes.Equal(h.Addr.MAC, sess.HostMAC) && !bytes.Equal(h.Addr.MAC, sess.RouterMAC) {
+					ah.StartHunt(h.Addr)
+					time.Sleep(30 * time.Millisecond)
+					ah.StopHunt(h.Addr)
+					break
+				}
+			}
+			time.Sleep(30 * time.Millisecond)
+			flush("ARP hunt start/stop")
+		}
+	}
+	ah.Close()
+	h6.Close()
+	c.Res.Extra["history_frames"] = total
+}
+
+func GenAll(c *core.Ctx) {
+	Gen(c)
+	for i := 0; i < c.Scale(2, 20); i++ {
+		genHistory(c, c.Seed*1000+int64(i), c.Scale(150, 400))
+	}
+}
+
+var Runner = core.Runner{Gen: GenAll, Eval: Eval}
